@@ -403,17 +403,29 @@ def norm_sig(sig):
     m = re.match(r"^call:(add|sub|mul)(_assign)?<([^>]*)>$", sig)
     if m:
         return "Overflow(%s v,v)" % m.group(1).capitalize()
+    # `it.sum::<usize>()` / `it.product::<usize>()` are the accumulating loops `acc += x` / `acc *= x` (same overflow check)
+    m = re.match(r"^call:(sum|product)<([^>]*)>$", sig)
+    if m:
+        return "Overflow(%s v,v)" % ("Add" if m.group(1) == "sum" else "Mul")
     return sig
 
 
-def load_tables():
+def load_tables(prog=None):
     base = os.path.join(os.path.dirname(os.path.dirname(os.path.dirname(os.path.abspath(__file__)))), "tables")
     with open(os.path.join(base, "panic_sites.json")) as fh:
         ps = json.load(fh)
     with open(os.path.join(base, "contracts.json")) as fh:
         ct = json.load(fh)
     rows = {}
+    all_rows = list(ps["rows"])
+    # a reviewed helper that no longer exists was merged into its caller(s) (canon.py, `gone`): its rows are handed to them
+    gone = (getattr(prog, "canon_report", None) or {}).get("gone") or {}
     for r in ps["rows"]:
+        g = norm_fn(r["fn"])
+        if g in gone:
+            for c in gone[g]:
+                all_rows.append(dict(r, fn=c, reason=r["reason"] + " (row of the merged helper %s)" % g.rsplit("::", 1)[-1]))
+    for r in all_rows:
         k = (norm_fn(r["fn"]), norm_sig(r["sig"]))
         r = dict(r, sig=norm_sig(r["sig"]))
         if k in rows:
@@ -571,7 +583,7 @@ def check_C17(chk):
     chk.not_decided = ("panics inside dependencies on malformed input (noodles, nom, flate2, clap: their MIR is outside the workspace wrapper); "
                        "out-of-memory aborts; the truth of each reviewed reason (they are read, not proved)")
     prog = chk.prog
-    rows, contracts = load_tables()
+    rows, contracts = load_tables(chk.prog)
     RC.exit_status(chk, "C17.a")
     check_contracts(chk, "C17.c", contracts)
     reach, parent = prog.reachable([prog.entry])
@@ -621,7 +633,7 @@ FUSED_EXCEPTIONS = {
 }
 # sites that are findings in general but discharged in the iterator context
 C19D_CONTEXT = {
-    ("sfs_core::array::shape::Shape::elements", "call:product<usize>"):
+    ("sfs_core::array::shape::Shape::elements", "Overflow(Mul v,v)"):
         "index_from_flat_unchecked multiplies the same shape whose product was already computed without overflow when the iterator was constructed (IndicesIter::from_shape)",
 }
 
@@ -728,17 +740,16 @@ def c19a(chk, rows):
             if h is not g:
                 # `cond.then(|| unchecked)`: the closure runs only when the receiver is true; judge at the then() call with the receiver's edge
                 B = None
+                flags = IT.forall_flags(prog, g, its)
                 for tb, tt in g.calls():
                     if callee_is(tt["callee"], "core::bool::<impl bool>::then") and len(tt["args"]) >= 2 and an.closure_of_operand(g, tt["args"][1]) == h.path:
                         rl = op_local(tt["args"][0])
                         rr = g.copy_root(rl) if rl is not None else None
-                        for x in its:
-                            if x.parent is g and x.kind == "closure" and x.consumer == "all" and an.call_dest_local(x.term) == rr:
-                                c = IT._closure_single_cmp(x)
-                                if c is not None:
-                                    via = "closure of bool::then on the all(..) result"
-                                    guards = [{"it": x, "cmp": IT.norm_cmp(c), "how": "all(..).then(..)"}]
-                                    B = tb
+                        fl = flags.get(rr)
+                        if fl is not None:
+                            via = "closure of bool::then on a flag that is true only if the test held for every element"
+                            guards = [{"it": fl["it"], "cmp": fl["cmp"], "how": fl["how"] + ".then(..)"}]
+                            B = tb
             if h is g:
                 guards = IT.forall_guards(prog, g, its, B)
             elif B is None:
@@ -1035,7 +1046,7 @@ def check_C19(chk):
         "guard at the top, with one reviewed exception); (c) for each of the 4 ExactSizeIterator impls size_hint depends on a field that next() "
         "advances, or delegates to an exact inner iterator, and returns (n, Some(n)); (d) next() and size_hint() are total.")
     chk.not_decided = "the row-major bijection, which elements a view selects, sum = sum of views (index arithmetic over all shapes)"
-    rows, contracts = load_tables()
+    rows, contracts = load_tables(chk.prog)
     c19a(chk, rows)
     c19bcd(chk, rows)
     for r, n in (("C19.a", 8), ("C19.b", 5), ("C19.c", 6), ("C19.d", 4)):
